@@ -197,6 +197,76 @@ def spawn_workers(binp, harness, seed, total_runs, deadline_s, outdir, extra_env
     return procs
 
 
+def run_pool(binp, sub, harness, seed, total_runs, deadline_s, outdir, nworkers):
+    """Run the workers; a worker that dies is resumed after the case it died on."""
+    os.makedirs(outdir, exist_ok=True)
+    t_end = time.time() + deadline_s
+    hard_end = t_end + sub.get("grace_s", 180)
+    slots = {}
+    results, deaths = [], []
+
+    def spawn(w, frm, skip, gen):
+        env = dict(os.environ)
+        base = os.path.join(outdir, "w%d.r%d" % (w, gen))
+        env.update({
+            "VERIF_HARNESS": harness, "VERIF_SEED": str(seed),
+            "VERIF_RUN_FROM": str(frm), "VERIF_RUN_TO": str(total_runs), "VERIF_RUN_STRIDE": str(nworkers),
+            "VERIF_OUT": base + ".json", "VERIF_DEADLINE_S": str(max(1, int(t_end - time.time()))),
+            "VERIF_PROGRESS": base + ".progress", "VERIF_SKIP": ",".join(str(x) for x in skip),
+            "GOMAXPROCS": env.get("VERIF_GOMAXPROCS", "2"), "GOTRACEBACK": "all",
+        })
+        if sub.get("env"):
+            env.update(sub["env"])
+        lf = open(base + ".log", "w")
+        p = subprocess.Popen(ulimit_wrap([binp, "-test.run", "^TestVerif$", "-test.timeout", "0", "-test.count", "1"]), env=env, stdout=lf, stderr=subprocess.STDOUT, cwd=outdir)
+        slots[w] = dict(p=p, lf=lf, base=base, frm=frm, skip=list(skip), gen=gen)
+
+    for w in range(nworkers):
+        spawn(w, w, [], 0)
+    while slots:
+        time.sleep(0.05)
+        for w in list(slots):
+            sl = slots[w]
+            rc = sl["p"].poll()
+            if rc is None:
+                if time.time() > hard_end:
+                    sl["p"].kill()
+                    sl["p"].wait()
+                    rc = -999
+                else:
+                    continue
+            sl["lf"].close()
+            del slots[w]
+            base = sl["base"]
+            if rc == 0 and os.path.exists(base + ".json"):
+                results.append(json.load(open(base + ".json")))
+                continue
+            # died: keep what the checkpoint covered, find the culprit, resume after it
+            tail = ""
+            try:
+                tail = open(base + ".log").read()[-20000:]
+            except OSError:
+                pass
+            nxt = sl["frm"]
+            if os.path.exists(base + ".json.ckpt"):
+                try:
+                    ck = json.load(open(base + ".json.ckpt"))
+                    results.append(ck)
+                    nxt = ck.get("next", nxt)
+                except Exception:
+                    pass
+            culprit = None
+            try:
+                culprit = int(open(base + ".progress").read().strip())
+            except Exception:
+                pass
+            deaths.append(dict(worker=w, rc=rc, culprit=culprit, tail=tail))
+            if rc == -999 or culprit is None or time.time() > t_end - 2 or sl["gen"] >= sub.get("max_respawns", 400):
+                continue
+            spawn(w, nxt, sl["skip"] + [culprit], sl["gen"] + 1)
+    return results, deaths
+
+
 def wait_workers(procs, watchdog_s):
     t0 = time.time()
     res = {}
@@ -257,26 +327,10 @@ def check(pid, tier, seed, replay=None):
         od = os.path.join(outroot, hname.replace("/", "_"))
         t0 = time.time()
         nw = sub.get("workers")
-        procs = spawn_workers(binp, hname, seed, runs, deadline, od, extra_env=sub.get("env"), nworkers=nw, progress=bool(sub.get("crash_is_violation")))
-        rcs = wait_workers(procs, deadline + sub.get("grace_s", 180))
+        results, deaths = run_pool(binp, sub, hname, seed, runs, deadline, od, nw or NWORKERS)
         sub_wall = time.time() - t0
-        sr = dict(harness=hname, runs=0, evals=0, wall_s=round(sub_wall, 1))
-        for w, rc in rcs.items():
-            of = os.path.join(od, "w%d.json" % w)
-            if rc != 0 or not os.path.exists(of):
-                tail = ""
-                try:
-                    tail = open(os.path.join(od, "w%d.log" % w)).read()[-3000:]
-                except OSError:
-                    pass
-                crash = handle_worker_death(pid, spec, sub, binp, seed, runs, w, rc, tail, od, nw or NWORKERS)
-                if crash is None:
-                    agg["herrs"].append("worker %d of %s died rc=%s (not reproducible run-by-run): %s" % (w, hname, rc, tail[-800:]))
-                else:
-                    agg["viols"].append(crash)
-                    agg["sigs"][crash["sig"]] = agg["sigs"].get(crash["sig"], 0) + 1
-                continue
-            d = json.load(open(of))
+        sr = dict(harness=hname, runs=0, evals=0, wall_s=round(sub_wall, 1), worker_deaths=len(deaths))
+        for d in results:
             for k in ("runs", "evals", "steps", "switches", "sim_ms"):
                 agg[k] += d.get(k, 0)
             sr["runs"] += d.get("runs", 0)
@@ -287,14 +341,41 @@ def check(pid, tier, seed, replay=None):
                 src = d.get({"faults": "faults_fired", "offered": "faults_offered"}.get(name, name)) or {}
                 for k, v in src.items():
                     agg[name][k] = agg[name].get(k, 0) + v
-            for s in d.get("samples") or []:
+            for smp in d.get("samples") or []:
                 if len(agg["samples"]) < 3:
-                    agg["samples"].append({"harness": hname, "case": s})
+                    agg["samples"].append({"harness": hname, "case": smp})
             for k, v in (d.get("sig_counts") or {}).items():
                 agg["sigs"][k] = agg["sigs"].get(k, 0) + v
             agg["herrs"].extend(d.get("harness_errors") or [])
             agg["viols"].extend(d.get("violations") or [])
             agg["early"] = agg["early"] or d.get("stopped_early", False)
+        # worker deaths: one confirmation per distinct crash site
+        by_site = {}
+        for dth in deaths:
+            kind, site = crash_site(dth["tail"]) if dth["rc"] != 3 else ("watchdog: case did not finish", "hang")
+            dth["kind"], dth["site"] = kind, site
+            by_site.setdefault(site, []).append(dth)
+        for site, lst in sorted(by_site.items()):
+            if not sub.get("crash_is_violation"):
+                agg["herrs"].append("worker of %s died (%s at %s): %s" % (hname, lst[0]["kind"], site, lst[0]["tail"][-600:]))
+                continue
+            confirmed = None
+            for dth in lst[:3]:
+                if dth["culprit"] is None:
+                    continue
+                rc1, out1 = run_single(binp, hname, seed, dth["culprit"], od, sub.get("env"))
+                if rc1 != 0:
+                    k2, s2 = crash_site(out1) if rc1 != -999 and rc1 != 3 else ("watchdog: case did not finish", "hang")
+                    confirmed = (dth, k2, s2, rc1, out1)
+                    break
+            if confirmed is None:
+                agg["herrs"].append("%d worker death(s) of %s at %s did not reproduce when the case was re-run alone (e.g. run %s): %s" % (len(lst), hname, site, lst[0]["culprit"], lst[0]["tail"][-600:]))
+                continue
+            dth, k2, s2, rc1, out1 = confirmed
+            sig = "%s|process-crash|%s" % (pid, s2)
+            agg["viols"].append({"property": pid, "harness": hname, "batch_seed": seed, "run": dth["culprit"], "sig": sig, "process_crash": True,
+                                 "detail": "the serving process dies on this single case: %s at %s (rc=%s); %d worker death(s) at this site in this batch" % (k2, s2, rc1, len(lst)), "tail": out1[-3000:]})
+            agg["sigs"][sig] = agg["sigs"].get(sig, 0) + len(lst)
         sub_reports.append(sr)
     wall = time.time() - t_start
 
@@ -450,15 +531,19 @@ def run_single(binp, harness, seed, run_idx, outdir, extra_env):
 
 
 def crash_site(tail):
-    """Derive a stable site from a Go crash dump: first zoekt (non-verifsim) frame."""
+    """Derive a stable site from a Go crash dump: the first zoekt (non-harness) function frame
+    of the crashing goroutine (function name, so that it survives line shifts)."""
     kind = "fatal"
-    m = re.search(r"^(panic: .*|fatal error: .*|SIGSEGV.*|unexpected fault address.*|watchdog.*)$", tail, re.M)
+    m = re.search(r"^(panic: .*|fatal error: .*|SIGSEGV.*|SIGBUS.*|unexpected fault address.*|watchdog.*|runtime: out of memory.*)$", tail, re.M)
     if m:
-        kind = m.group(1)[:80]
-    for m in re.finditer(r"zoekt/((?:index|search|gitindex|cmd|grpc|query|internal)[\w/\-]*/[\w\-]+\.go):(\d+)", tail):
-        if "verifsim" in m.group(1) or "zz_verif" in m.group(1):
+        kind = re.sub(r"0x[0-9a-f]+|\d+", "N", m.group(1))[:80]
+    start = m.start() if m else 0
+    for fm in re.finditer(r"^github\.com/sourcegraph/zoekt/((?:index|search|gitindex|cmd|grpc|query|internal)[\w/\-]*)\.([\w\(\)\*\.\[\]]+?)(?:\(|\{)", tail[start:], re.M):
+        pkg, fn = fm.group(1), fm.group(2)
+        if "verifsim" in pkg or fn.startswith("runC") or fn.startswith("TestVerif") or "zz_verif" in fn:
             continue
-        return kind, m.group(1)
+        fn = re.sub(r"\.func\d+(\.\d+)*$", "", fn)
+        return kind, pkg + "." + fn
     return kind, "unknown"
 
 
